@@ -9,7 +9,8 @@ rules, one event per quiescent stimulus).  This check
   2. takes histories from TLC (`-simulate`, seeded; the invariant Emit prints them as JSON);
   3. for every history starts a REAL `python -m circus.circusd` on a real ini file in a scratch directory (ipc
      endpoints, one inet and one unix managed socket, a use_sockets watcher whose command line carries
-     $(circus.sockets.NAME), a watcher without use_sockets; workers are harness/live/worker.py), drives the
+     $(circus.sockets.NAME), and either a watcher with neither use_sockets nor stdin_socket or a watcher with
+     stdin_socket = NAME and no use_sockets; workers are harness/live/worker.py), drives the
      events with real control requests (circus.client.CircusClient) and real kill(2), and after every step
      projects what is observable from outside -- the records the workers wrote about their own /proc/self/fd,
      /proc/<daemon>/fd, /proc/net/{tcp,unix}, a connect() probe -- onto the observation record of the spec;
@@ -39,10 +40,12 @@ from harness import checklib, tlcrun, livelib  # noqa: E402
 from harness.livelib import T  # noqa: E402
 
 SOCKS = ("inet", "unix")
-WATCHERS = ("wn", "ws")
-USE = {"wn": False, "ws": True}
-REFS = {"wn": (), "ws": ("inet", "unix")}
-NP0 = {"wn": 1, "ws": 2}
+# three kinds of watcher: ws use_sockets + $(circus.sockets.*) in cmd; wn neither; wi stdin_socket = NAME, no
+# use_sockets (descriptor 0 of its workers IS the managed socket; nothing else of the daemon may be inherited).
+# A history comes with the watchers present ({wn, ws} or {wi, ws}) and the socket wi's stdin_socket names.
+USE = {"wi": False, "wn": False, "ws": True}
+REFS = {"wi": (), "wn": (), "ws": ("inet", "unix")}
+NP0 = {"wi": 1, "wn": 1, "ws": 2}
 MAX_EVENTS = 4
 MAX_PROCS = 3
 
@@ -51,6 +54,7 @@ CFG = """CONSTANTS
   MaxProcs = %d
   Fault_CloseFds = %s
   Fault_KeepFds = %s
+  Fault_KeepFdsStdin = %s
   Fault_NoInherit = %s
   Fault_Rebind = %s
 INIT %s
@@ -59,10 +63,11 @@ CHECK_DEADLOCK FALSE
 %s
 """
 
-MAIN_INVS = ["Inv_Same", "Inv_Stable", "Inv_NoLeak", "Inv_ProjFaithful", "Inv_Count"]
+MAIN_INVS = ["Inv_Same", "Inv_Stable", "Inv_NoLeak", "Inv_ProjFaithful", "Inv_Count", "Inv_Stdin"]
 # fault branch -> invariant that has to fail with it
-FAULTS = [("CloseFds", "Inv_Same"), ("KeepFds", "Inv_NoLeak"), ("NoInherit", "Inv_Same"), ("Rebind", "Inv_Stable")]
-REACH = ["Reach_ThirdGeneration", "Reach_Fresh"]
+FAULTS = [("CloseFds", "Inv_Same"), ("KeepFds", "Inv_NoLeak"), ("KeepFdsStdin", "Inv_NoLeak"),
+          ("NoInherit", "Inv_Same"), ("Rebind", "Inv_Stable")]
+REACH = ["Reach_ThirdGeneration", "Reach_Fresh", "Reach_StdinThird"]
 
 
 def _tf(b):
@@ -73,7 +78,7 @@ def write_cfg(path, faults=(), invs=(), props=(), init="Init", nxt="Next", max_e
     body = "\n".join(["INVARIANT " + i for i in invs] + ["PROPERTY " + p for p in props])
     with open(path, "w") as fh:
         fh.write(CFG % (max_events, MAX_PROCS, _tf("CloseFds" in faults), _tf("KeepFds" in faults),
-                        _tf("NoInherit" in faults), _tf("Rebind" in faults), init, nxt, body))
+                        _tf("KeepFdsStdin" in faults), _tf("NoInherit" in faults), _tf("Rebind" in faults), init, nxt, body))
     return path
 
 
@@ -142,20 +147,18 @@ def choose(hs, n, rng):
     both so_reuseport configurations, then fill up."""
     groups = {}
     for h in hs:
-        key = (h["rp"]["inet"], json.dumps(h["events"][:-1]))
+        kind = "stdin" if "wi" in h["watchers"] else ("rp" if h["rp"]["inet"] else "plain")
+        key = (kind, h["si"], h["rp"]["inet"], json.dumps(h["events"][:-1]))
         groups.setdefault(key, []).append(h)
-    keys = sorted(groups.keys(), key=lambda k: (k[1], k[0]))
+    keys = sorted(groups.keys())
     rng.shuffle(keys)
-    # plain configuration twice as often as so_reuseport (the statement excepts the latter)
-    plain = [k for k in keys if not k[0]]
-    rp = [k for k in keys if k[0]]
+    # shares: 2 plain : 2 stdin_socket : 1 so_reuseport (the statement excepts the latter)
+    pools = dict((k, [x for x in keys if x[0] == k]) for k in ("plain", "stdin", "rp"))
     order = []
-    while plain or rp:
-        for _ in range(2):
-            if plain:
-                order.append(plain.pop())
-        if rp:
-            order.append(rp.pop())
+    while any(pools.values()):
+        for kind in ("plain", "stdin", "rp", "plain", "stdin"):
+            if pools[kind]:
+                order.append(pools[kind].pop())
     out = []
     rnd = 0
     while len(out) < n and any(groups.values()):
@@ -163,7 +166,7 @@ def choose(hs, n, rng):
             if groups[k] and len(out) < n:
                 g = groups[k]
                 # prefer a last event on the use_sockets watcher in the first round
-                pref = [h for h in g if h["events"][-1][1] == "ws"] if rnd == 0 else g
+                pref = [h for h in g if h["events"][-1][1] == ("wi" if k[0] == "stdin" else "ws")] if rnd == 0 else g
                 h = rng.choice(pref or g)
                 g.remove(h)
                 out.append(h)
@@ -186,7 +189,8 @@ def concretize(hist, idx, seed):
             "backlog": rng.choice([None, 16, 128])}
 
 
-def make_ini(d, rp, conc):
+def make_ini(d, hist, conc):
+    rp = hist["rp"]
     rec = os.path.join(d, "rec")
     lines = ["[circus]", "endpoint = ipc://%s/ctl.sock" % d, "pubsub_endpoint = ipc://%s/pub.sock" % d,
              "check_delay = %s" % conc["check_delay"], "statsd = False", "httpd = False", "",
@@ -204,11 +208,16 @@ def make_ini(d, rp, conc):
               "use_sockets = True", "numprocesses = %d" % NP0["ws"], "graceful_timeout = 2", "copy_env = True"]
     if conc["ws_stdout_file"]:
         lines += ["stdout_stream.class = FileStream", "stdout_stream.filename = %s/ws.out" % d]
-    lines += ["", "[watcher:wn]",
-              "cmd = " + livelib.worker_cmd(rec, "wn", "--wid", "$(circus.wid)"),
-              "numprocesses = %d" % NP0["wn"], "graceful_timeout = 2", "copy_env = True"]
-    if conc["wn_stdout_file"]:
-        lines += ["stdout_stream.class = FileStream", "stdout_stream.filename = %s/wn.out" % d]
+    for w in hist["watchers"]:
+        if w == "ws":
+            continue
+        lines += ["", "[watcher:%s]" % w,
+                  "cmd = " + livelib.worker_cmd(rec, w, "--wid", "$(circus.wid)"),
+                  "numprocesses = %d" % NP0[w], "graceful_timeout = 2", "copy_env = True"]
+        if w == "wi":
+            lines.append("stdin_socket = %s" % hist["si"])
+        if conc["wn_stdout_file"]:
+            lines += ["stdout_stream.class = FileStream", "stdout_stream.filename = %s/%s.out" % (d, w)]
     return "\n".join(lines) + "\n"
 
 
@@ -217,12 +226,14 @@ class LiveRun(object):
         self.d = d
         self.hist = hist
         self.rp = hist["rp"]
+        self.si = hist["si"]
+        self.watchers = tuple(sorted(hist["watchers"]))
         self.conc = conc
-        self.daemon = livelib.Daemon(d, make_ini(d, self.rp, conc))
+        self.daemon = livelib.Daemon(d, make_ini(d, hist, conc))
         self.records = livelib.Records(os.path.join(d, "rec"))
         self.ctl = None
         self.ords = {}              # (pid, start_ticks) -> ordinal within its watcher
-        self.next_ord = dict((w, 1) for w in WATCHERS)
+        self.next_ord = dict((w, 1) for w in self.watchers)
         self.boot = {}              # socket name -> {fd, inode, port/path}
         self.daemon_targets = set() # link targets of everything the daemon was seen to hold (stdio excluded)
         self.daemon_socket_inodes = set()
@@ -254,7 +265,7 @@ class LiveRun(object):
         if rep.get("status") != "ok":
             return None
         view = {}
-        for w in WATCHERS:
+        for w in self.watchers:
             g = self.ctl.once("get", name=w, keys=["numprocesses"])
             if g.get("status") != "ok":
                 return None
@@ -277,15 +288,15 @@ class LiveRun(object):
                 stable = 0
             else:
                 view = self.circus_view()
-                count = dict((w, len([r for r in live if r["tag"] == w])) for w in WATCHERS)
+                count = dict((w, len([r for r in live if r["tag"] == w])) for w in self.watchers)
                 if view is None:
                     why = "no answer to status/get"
                     stable = 0
-                elif any(view[w][1] != "active" or view[w][0] != count[w] for w in WATCHERS):
+                elif any(view[w][1] != "active" or view[w][0] != count[w] for w in self.watchers):
                     why = "daemon says %s, live workers %s" % (view, count)
                     stable = 0
                     # a watcher that gave up (spawn failed max_retry times) does not come back by itself
-                    if any(view[w][1] == "stopped" for w in WATCHERS):
+                    if any(view[w][1] == "stopped" for w in self.watchers):
                         stopped_since = stopped_since or time.time()
                         if time.time() - stopped_since > T(3):
                             return None, "a watcher stays stopped: " + why
@@ -301,7 +312,7 @@ class LiveRun(object):
         return None, why
 
     def assign_ordinals(self, live):
-        for w in WATCHERS:
+        for w in self.watchers:
             new = [r for r in live if r["tag"] == w and (r["pid"], r["start_ticks"]) not in self.ords]
             # within one batch circus hands out the smallest free wid: spawn order = wid order
             new.sort(key=lambda r: (int(r["wid"]) if str(r.get("wid", "")).isdigit() else 10 ** 6, r["start_ticks"],
@@ -365,8 +376,15 @@ class LiveRun(object):
                 socks[n] = {"same": False, "inl": False, "probe": False}
                 continue
             probes[n] = livelib.probe_inet(b["port"]) if n == "inet" else livelib.probe_unix(b["path"])
-            socks[n] = {"same": dfd.get(b["fd"]) == "socket:[%d]" % b["inode"],
-                        "inl": (b["inode"] in tcp) if n == "inet" else (b["inode"] in unx),
+            inl = (b["inode"] in tcp) if n == "inet" else (b["inode"] in unx)
+            for _ in range(4):
+                if inl:
+                    break
+                # /proc/net/* is not read atomically: under churn a row can be skipped; a socket that really
+                # stopped listening stays so, so looking again is sound
+                time.sleep(T(0.05))
+                inl = (b["inode"] in livelib.tcp_listeners()) if n == "inet" else (b["inode"] in livelib.unix_listeners())
+            socks[n] = {"same": dfd.get(b["fd"]) == "socket:[%d]" % b["inode"], "inl": inl,
                         "probe": probes[n] == "ok"}
         workers = []
         rawworkers = []
@@ -395,10 +413,15 @@ class LiveRun(object):
                 else:
                     at[n] = "other"
             extra = len([fd for fd, t in fds.items() if int(fd) > 2 and t in self.daemon_targets])
-            workers.append({"w": w, "ord": self.ordinal(r), "at": at, "holds": holds, "extra": extra})
+            stdin = "na"
+            if w == "wi":
+                b = self.boot.get(self.si)
+                stdin = "boot" if (b and fds.get("0") == "socket:[%d]" % b["inode"]) else "other"
+            workers.append({"w": w, "ord": self.ordinal(r), "at": at, "holds": holds, "extra": extra,
+                            "stdin": stdin})
             rawworkers.append({"pid": r["pid"], "watcher": w, "ord": self.ordinal(r), "wid": r.get("wid"),
                                "argv": r["argv"][3:], "fds": fds, "argfds": r["argfds"]})
-        obs = {"socks": socks, "np": dict((w, view[w][0]) for w in WATCHERS), "workers": workers}
+        obs = {"socks": socks, "np": dict((w, view[w][0]) for w in self.watchers), "workers": workers}
         self.lines.append({"ev": ev, "obs": obs})
         self.raw.append({"ev": ev, "daemon_fds": dict((str(k), v) for k, v in sorted(dfd.items())),
                          "boot": self.boot, "probes": probes, "workers": rawworkers})
@@ -486,11 +509,12 @@ class LiveRun(object):
                     self.ctl.close()
             finally:
                 self.daemon.destroy()
-            res["trace"] = {"rp": self.rp, "lines": self.lines}
+            res["trace"] = {"rp": self.rp, "si": self.si, "watchers": list(self.watchers), "lines": self.lines}
             res["raw"] = self.raw
             res["problems"] = self.problems
             res["wall_s"] = round(time.time() - t0, 2)
             res["generations_ws"] = self.next_ord["ws"] - 1
+            res["generations_wi"] = self.next_ord.get("wi", 1) - 1
 
 
 def live_history(job):
@@ -600,6 +624,8 @@ def run(prop, tier, seed):
               "watcher = numprocesses as the daemon reports it, twice in a row",
               "the order of workers spawned in one batch is the order of their $(circus.wid)",
               "so_reuseport sockets are observed for conformance only (excepted by the statement)",
+              "descriptor 0 of a stdin_socket worker being the managed socket counts as stdio; that it IS the socket "
+              "bound at startup is compared with the model (divergence), C07_NoLeak judges descriptors above 2",
               "TLC, the CommunityModules Json module; Linux /proc"]}
     return verdict.finish(ev)
 
@@ -612,7 +638,7 @@ def _run(verdict, quick, seed, scratch, n_hist, par):
     mc_events, live_events = (MAX_EVENTS, MAX_EVENTS) if quick else (MAX_EVENTS + 1, MAX_EVENTS + 2)
     jobs = tlc_jobs(scratch, mc_events)
     futs = [pool.submit(run_tlc_job, j, scratch) for j in jobs]
-    hs, simst = simulate_histories(scratch, seed, max(n_hist, 12), live_events)
+    hs, simst = simulate_histories(scratch, seed, max(3 * n_hist, 36), live_events)
     cov = {"simulation": simst, "histories_offered_by_tlc": len(hs), "mc_max_events": mc_events,
            "live_history_length": live_events}
     if len(hs) < min(n_hist, 8):
@@ -702,8 +728,9 @@ def _run(verdict, quick, seed, scratch, n_hist, par):
         if not m["ok"]:
             verdict.machinery.append("TLC %s: %s" % (m["label"], m["why"][-1200:]))
     samples = []
-    for r in good[:3]:
+    for r in good[:3] + [x for x in good if "wi" in x["history"]["watchers"]][:1]:
         samples.append({"so_reuseport_inet": r["history"]["rp"]["inet"], "events": r["history"]["events"],
+                        "watchers": r["history"]["watchers"], "stdin_socket_of_wi": r["history"]["si"],
                         "concretization": r["concretization"], "generations_ws": r["generations_ws"],
                         "observed_last": r["trace"]["lines"][-1]["obs"] if r["trace"]["lines"] else None,
                         "raw_last_worker": (r["raw"][-1]["workers"] or [None])[-1] if r["raw"] else None,
@@ -723,6 +750,8 @@ def _run(verdict, quick, seed, scratch, n_hist, par):
         "traces_validated_against_impl": len([v for v in vs if v is not None]),
         "live_histories_run": len(runs), "live_histories_completed": len(good),
         "live_histories_so_reuseport": len([r for r in good if r["history"]["rp"]["inet"]]),
+        "live_histories_stdin_socket": len([r for r in good if "wi" in r["history"]["watchers"]]),
+        "stdin_socket_worker_generations_max": max([r.get("generations_wi", 0) for r in good] or [0]),
         "observed_states_checked": lines,
         "worker_generations_ws_min_max": [min([r["generations_ws"] for r in good] or [0]),
                                           max([r["generations_ws"] for r in good] or [0])],
@@ -765,8 +794,9 @@ def replay_case(rep):
         if not vs or vs[0] is None:
             print("MACHINERY-FAILURE: SocketsTrace gave no verdict: %s" % st.get("error", "")[-800:])
             return 2
-        print("replayed %s (so_reuseport %s): monitors FALSE %s, first divergent line %d" % (
-            rep["history"]["events"], rep["history"]["rp"]["inet"], vs[0]["bad"], vs[0]["div"]))
+        print("replayed %s (so_reuseport %s, watchers %s, stdin_socket %s): monitors FALSE %s, first divergent "
+              "line %d" % (rep["history"]["events"], rep["history"]["rp"]["inet"], rep["history"]["watchers"],
+                           rep["history"]["si"], vs[0]["bad"], vs[0]["div"]))
         if vs[0]["bad"]:
             print("   " + describe(r, vs[0]))
             return 1
